@@ -48,6 +48,7 @@ func init() {
 			ruleNoReorderingOfMessages(c)
 			ruleReaderDoesNotWait(c)
 			ruleReplyKeyWhole(c, c.M.CPending, "client")
+			ruleSettleCopiesBoth(c)
 			ruleNullErrorIsAbsent(c)
 			ruleRecvBufferNotRetained(c, "PROV.recvbuf")
 			c.Clause("C04-D5")
@@ -109,6 +110,8 @@ func init() {
 		Run: func(c *chk.Ctx, tier string) {
 			c.Clause("C09-D1/D2")
 			rulePushGate(c)
+			ruleNotifyIgnoresContext(c)
+			ruleSettleCopiesBoth(c)
 			ruleRunGuardServer(c)
 			c.Clause("C09-D3")
 			ruleAtomicCounter(c, "server", c.M.SCallID)
